@@ -508,6 +508,8 @@ def concretize(ex, v, m, memo=None, depth=0):
         return '<opaque>'
     if isinstance(v, SBytes):
         n = v.length if isinstance(v.length, int) else ev(v.length)
+        if n > 2400:
+            ex.ghost['truncated'] = True     # the recipe is not the model: not an input for the CPython cross-check
         n = max(0, min(n, 2400))
         saved = ex.collect_facts
         ex.collect_facts = []
@@ -1393,9 +1395,10 @@ def verify(world_factory, c, registry_by_name=None):
             r, m = ex.model()
             if m is not None:
                 try:
+                    ex.ghost['truncated'] = False
                     s = conc_hook(ex, m)
                     s['outcome'] = outcome[0] if outcome[0] == 'return' else exc.cls.qualname
-                    s['havocked'] = bool(ex.ghost.get('havocked'))
+                    s['havocked'] = bool(ex.ghost.get('havocked')) or bool(ex.ghost.get('truncated'))
                     samples.append(s)
                 except Exception:
                     pass
